@@ -32,6 +32,7 @@ import Kust.RefVar
 import Kust.PathSplit
 import Kust.NsFilter
 import Kust.Select
+import Kust.CrdConfig
 import Kust.Gen.Lists
 import Kust.Gen.FieldSpecs
 import Kust.Gen.Lists
@@ -567,6 +568,26 @@ def runSelect (a : Json) : Except String Json := do
     return ({ c := c, labels := jPairs (j.getObjValD "labels"), annos := jPairs (j.getObjValD "annos") } : Select.SRes)
   return outToJson (fun l => Json.arr (l.map fun (x : Select.SRes) => idToJson x.c.cur).toArray) (Select.select cs hit (fun p => badL.contains p) sel rs)
 
+/-! ### CRD definitions → transformer configuration -/
+def runCrd (a : Json) : Except String Json := do
+  let types : CrdConfig.Types := (jArr (a.getObjValD "types")).map fun tj =>
+    (jS tj "name", (jArr (tj.getObjValD "props")).map fun pj =>
+      let orj := pj.getObjValD "objref"
+      let objref : Option (String × String × Option String) :=
+        if orj.isNull then none else
+          let nk := orj.getObjValD "nameKey"
+          some (jS orj "version", jS orj "kind", if nk.isNull then none else some (nk.getStr?.toOption.getD ""))
+      let rj := pj.getObjValD "ref"
+      ({ name := jS pj "name", anno := jB pj "anno", label := jB pj "label", ident := jB pj "ident", objref := objref,
+         ref := if rj.isNull then none else some (rj.getStr?.toOption.getD "") } : CrdConfig.P))
+  let line : CrdConfig.Spec → String
+    | .anno k p => "annotation " ++ k ++ " " ++ p
+    | .label k p => "label " ++ k ++ " " ++ p
+    | .pre k p => "prefix " ++ k ++ " " ++ p
+    | .nameref rk rv k p => "nameref " ++ rk ++ " " ++ rv ++ " " ++ k ++ " " ++ p
+  let ls := ((CrdConfig.config types).map line).eraseDups.mergeSort (fun x y => x ≤ y)
+  return Json.mkObj [("ok", strsJ ls)]
+
 /-! ### replacement filter -/
 namespace ReplJ
 open Kust.Repl
@@ -751,6 +772,7 @@ def dispatch (comp : String) (args : Json) : Except String Json :=
   | ["edit", op] => runEdit op args
   | ["nameref", op] => runNameref op args
   | ["resmap", "select"] => runSelect args
+  | ["crd", "config"] => runCrd args
   | ["loc", op] => runLoc op args
   | ["repl", op] => runRepl op args
   | ["match", op] => runMatch op args
